@@ -537,6 +537,38 @@ pub fn zst<const N: usize>(ctx: &mut Ctx) {
             }
         }
     }
+    // slices only a zero-sized type can have: lengths up to usize::MAX (the call stays O(N))
+    if N <= 65537 && ctx.mine_next() && ctx.begin_case(|| format!("zst N={} extend_from_slice with slices of () up to usize::MAX long", N)) {
+        static HUGE: [(); usize::MAX] = [(); usize::MAX];
+        for pre in [0usize, 1, 2, N] {
+            for slen in [usize::MAX, usize::MAX - 1, usize::MAX - N.min(5), 1usize << 63, (1usize << 63) + 1, N, N + 1] {
+                let r = catch_unwind(AssertUnwindSafe(|| {
+                    let mut b: Box<CircularBuffer<N, ()>> = Box::new(CircularBuffer::new());
+                    for _ in 0..pre.min(N) {
+                        b.push_back(());
+                    }
+                    let before = b.len();
+                    b.extend_from_slice(&HUGE[..slen]);
+                    (before, b.len(), b.is_full(), b.iter().count())
+                }));
+                ctx.count("zst_ops", 1);
+                let op = ZOp::ExtendFromSlice(slen);
+                match r {
+                    Err(_) => {
+                        let p = take_last_panic();
+                        viol(ctx, N, &op, "unexpected_panic", format!("extend_from_slice(&[(); {}]) on {} elements panicked: {:?}", slen, pre.min(N), p));
+                    }
+                    Ok((before, after, full, cnt)) => {
+                        let want = if N == 0 { 0 } else { before.saturating_add(slen).min(N) };
+                        if after != want || full != (want == N) || cnt != want {
+                            viol(ctx, N, &op, "wrong_len", format!("extend_from_slice(&[(); {}]) on {} elements: len {} (is_full {}, iter count {}), expected {}", slen, before, after, full, cnt, want));
+                        }
+                    }
+                }
+            }
+        }
+        ctx.distinct.insert(hash64(&format!("zst-huge-slice|{}", N)));
+    }
     // random histories
     ctx.can_skip = false;
     let mut rng = Rng::new(ctx.args.seed ^ hash64(&format!("zst|{}|{}", N, ctx.args.shard.0)));
